@@ -70,7 +70,7 @@ func c19Gen(rt *rapid.T) c19Case {
 	}
 	c.Peers = rapid.IntRange(1, 6).Draw(rt, "peers")
 	n := rapid.IntRange(3, 50).Draw(rt, "nops")
-	kinds := []string{"arrive", "arrive", "arrive+sub", "arrive+sub", "depart", "sub", "unsub", "graft", "prune", "join", "join", "leave", "relay", "unrelay", "hb", "hb", "lpub", "lpub", "batch", "rpub", "rpub", "rpub", "drain", "adv"}
+	kinds := []string{"arrive", "arrive", "arrive+sub", "arrive+sub", "depart", "sub", "unsub", "graft", "prune", "join", "join", "leave", "relay", "unrelay", "hb", "hb", "lpub", "lpub", "lpublocal", "batch", "rpub", "rpub", "rpub", "drain", "adv", "recancel"}
 	for i := 0; i < n; i++ {
 		op := c19Op{Op: rapid.SampledFrom(kinds).Draw(rt, "op"), P: rapid.IntRange(1, c.Peers).Draw(rt, "p"), T: rapid.IntRange(0, 1).Draw(rt, "t")}
 		switch op.Op {
@@ -223,6 +223,7 @@ func c19RunInBubble(t *testing.T, c c19Case, res *vfResult) {
 
 	topics := map[int]*Topic{}
 	subs := map[int][]*Subscription{}
+	cancelled := map[int]*Subscription{} // per topic: the subscription cancelled last
 	relays := map[int][]RelayCancelFunc{}
 	handle := func(ti int) *Topic {
 		if h, ok := topics[ti]; ok {
@@ -441,8 +442,17 @@ func c19RunInBubble(t *testing.T, c c19Case, res *vfResult) {
 			if ss := subs[op.T]; len(ss) > 0 {
 				drainSubs()
 				ss[len(ss)-1].Cancel()
+				cancelled[op.T] = ss[len(ss)-1]
 				subs[op.T] = ss[:len(ss)-1]
 				n.eval(func() {})
+			}
+		case "recancel":
+			// cancelling a subscription a second time is legal and must change nothing
+			if s := cancelled[op.T]; s != nil {
+				s.Cancel()
+				n.eval(func() {})
+				n.settle()
+				res.label("subscription-cancelled-twice")
 			}
 		case "relay":
 			r, err := handle(op.T).Relay()
@@ -456,9 +466,14 @@ func c19RunInBubble(t *testing.T, c c19Case, res *vfResult) {
 				relays[op.T] = rr[1:]
 				n.eval(func() {})
 			}
-		case "lpub":
+		case "lpub", "lpublocal":
 			publishCalls++
-			_ = handle(op.T).Publish(n.ctx, []byte(fmt.Sprintf("local-%d", step)))
+			var po []PubOpt
+			if op.Op == "lpublocal" {
+				po = append(po, WithLocalPublication(true))
+				res.label("local-only-publication")
+			}
+			_ = handle(op.T).Publish(n.ctx, []byte(fmt.Sprintf("local-%d", step)), po...)
 			n.settle()
 		case "batch":
 			if n.gs == nil {
